@@ -38,6 +38,17 @@ Proof.
   pose proof (nmsg_size_pos x). lia.
 Qed.
 
+Lemma jfind_step f x r name :
+  jfind_placeholder (S f) (x :: r) name =
+  match x with
+  | NMsgPlaceholder _ nm body => if bstr_eqb nm name then Ok (Some body) else jfind_placeholder f r name
+  | NMsgPlural p _ v cases dflt => jfind_placeholder f (r ++ cases ++ [NList p dflt]) name
+  | NMsgPluralCase p _ body => jfind_placeholder f (r ++ [NList p body]) name
+  | NList _ l => jfind_placeholder f (r ++ l) name
+  | _ => jfind_placeholder f r name
+  end.
+Proof. reflexivity. Qed.
+
 Lemma jfind_flat : forall body name fuel, forallb flat_node body = true -> (length body < fuel)%nat ->
   jfind_placeholder fuel body name = Ok (find_ph body name).
 Proof.
@@ -133,9 +144,13 @@ Proof.
   assert (Hk : (length (dflt ++ cb) < S (3 + F cb + F dflt))%nat).
   { pose proof (msg_size_length cb) as H1. pose proof (msg_size_length dflt) as H2. unfold msg_size in H1, H2.
     fold F in H1, H2. rewrite app_length. lia. }
-  rewrite Hsz. clearbody F.
-  cbn [jfind_placeholder plus app].
-  apply jfind_flat; [|exact Hk]. rewrite forallb_app, Hc, Hd. reflexivity.
+  rewrite Hsz. revert Hk. generalize (S (3 + F cb + F dflt))%nat as k. intros k Hk. clear Hsz Hgo F.
+  change (4 + k)%nat with (S (S (S (S k)))).
+  rewrite jfind_step. cbv iota beta. change ([] ++ [NMsgPluralCase pc cv cb] ++ [NList p dflt]) with [NMsgPluralCase pc cv cb; NList p dflt].
+  rewrite jfind_step. cbv iota beta. change ([NList p dflt] ++ [NList pc cb]) with [NList p dflt; NList pc cb].
+  rewrite jfind_step. cbv iota beta. change ([NList pc cb] ++ dflt) with (NList pc cb :: dflt).
+  rewrite jfind_step. cbv iota beta.
+  apply jfind_flat; [|exact Hk]. rewrite forallb_app, Hd, Hc. reflexivity.
 Qed.
 
 (* a PO plural with any number of forms: one case per form, each placing its translation's items *)
@@ -155,7 +170,7 @@ Proof.
   rewrite (new_message_plural vn (map msgstr_of trs)) by (rewrite map_length; exact Hv).
   cbn [jparts_of_cmsg jeval_parts].
   rewrite (jeval_plural_unfold _ vn _ p vn pv [NMsgPluralCase pc cv cb] dflt).
-  2:{ cbn [jfind_plural]. rewrite (proj2 (bstr_eqb_refl_iff vn)). reflexivity. }
+  2:{ cbn [jfind_plural]. rewrite beq_refl. reflexivity. }
   f_equal. f_equal.
   rewrite !map_map. 
   assert (Hm : map (fun x => jeval_parts w [NMsgPlural p vn pv [NMsgPluralCase pc cv cb] dflt] (map jpart_of (parts (msgstr_of x)))) trs
